@@ -220,6 +220,9 @@ func (m c19ReqMsg) human() []string {
 	var hs []string
 	for _, a := range m.Hdr {
 		at := c19ReqHdrAtoms[a]
+		if at.Key == "" {
+			continue
+		}
 		hs = append(hs, fmt.Sprintf("%s: %q", at.Key, at.Vals))
 	}
 	return []string{
@@ -486,6 +489,9 @@ func (m c19RspMsg) human() []string {
 	var hs []string
 	for _, a := range m.Hdr {
 		at := c19RspHdrAtoms[a]
+		if at.Key == "" {
+			continue
+		}
 		hs = append(hs, fmt.Sprintf("%s: %q", at.Key, at.Vals))
 	}
 	return []string{
@@ -745,7 +751,8 @@ func c19LatticePart[M any](name, rule string, lattice func(e explore.Env) []M, r
 			col := newC19Collector()
 			outs := &c19Outcomes{}
 			rep := explore.RunCases(e, len(l), 0, true, func(i int) explore.CaseResult {
-				out, f := run(l[i])
+				var out string
+				f := c19Guard(func() (f *explore.Fail) { out, f = run(l[i]); return f })
 				if f != nil {
 					col.add(i, f, l[i], human(l[i]))
 				} else {
@@ -765,7 +772,7 @@ func c19LatticePart[M any](name, rule string, lattice func(e explore.Env) []M, r
 		Replay: func(e explore.Env, raw json.RawMessage) *explore.Violation {
 			var m M
 			explore.Must(json.Unmarshal(raw, &m) == nil, "bad replay %s", raw)
-			_, f := run(m)
+			f := c19Guard(func() (f *explore.Fail) { _, f = run(m); return f })
 			if f == nil {
 				return nil
 			}
